@@ -153,3 +153,18 @@ package linkedhashmap
 //@     invariant ItInv(iterator) && iterator.iterator.index <= old(iterator.iterator.index)
 //@     invariant forall j :: iterator.iterator.index <= j && j < old(iterator.iterator.index) && 0 <= j ==> !f(ItSeq(iterator)[j], iterator.table[ItSeq(iterator)[j]])
 //@     decreases iterator.iterator.index + 1
+
+// ---- JSON (C11 round trip, C12 replace / sound / atomic) ----
+//
+// Both functions are hand-written over bytes.Buffer / bytes.Index / a sort closure and are outside what the engine can
+// prove; each has one stated obligation, and both are KNOWN FINDINGS (genuine defects, /verif/known_findings.txt):
+// ToJSON writes map keys with the value encoding (invalid JSON for non-string keys), FromJSON recovers the key order by
+// searching the input text for each key's encoding (wrong when a value's text equals a key).
+
+//@ func Map.ToJSON
+//@   requires Inv(m)
+//@   ensures [C11] object: result1 == nil ==> jobj_kind(result0, keyof(m.table), valof(m.table)) == 3
+
+//@ func Map.FromJSON
+//@   requires Inv(m)
+//@   ensures [C11 C12] Inv(m)
